@@ -26,7 +26,7 @@ func (c17) ID() string { return "C17" }
 func (c17) Meta() Meta {
 	return Meta{
 		Level:       "exploration",
-		Rule:        "for each of the schema/lang types with a Copy method, a reflective filler populates EVERY field of every reachable struct (interfaces from registries of all implementations; maps and slices with non-nil elements, slices with spare capacity), Copy() is called through reflection under recover(), the canonical dumps of original and copy must be equal (nil and empty containers are equal), no map / slice backing array / pointed-to schema struct of the copy may overlap the original's (constraints, addresses and cty values exempt), and adding/replacing entries in the copy's containers must leave the original's dump unchanged and vice versa. The field enumeration is exhaustive (all fields of all struct types reachable from the root types, listed in the evidence); fillings are seeded. distinct non-trivial = distinct (root type, field path) container/pointer positions that were checked for independence.",
+		Rule:        "for each of the schema/lang types with a Copy method, a reflective filler populates EVERY field of every reachable struct (interfaces from registries of all implementations; maps and slices with non-nil elements, slices with spare capacity, and in about a third of the fillings one pointer stored under two keys / at two indexes of a container, as dependent bodies registered under several keys are), Copy() is called through reflection under recover(), the canonical dumps of original and copy must be equal (nil and empty containers are equal), no map / slice backing array / pointed-to schema struct of the copy may overlap the original's (constraints, addresses and cty values exempt), and adding/replacing entries in the copy's containers must leave the original's dump unchanged and vice versa. The field enumeration is exhaustive (all fields of all struct types reachable from the root types, listed in the evidence); fillings are seeded. distinct non-trivial = distinct (root type, field path) container/pointer positions that were checked for independence.",
 		Assumptions: []string{"slices and maps are filled with non-nil elements only (a nil *Targetable inside TargetableAs is not a schema value)", "constraints, schema.Address/lang.Address and cty types/values are immutable by convention and may be shared, as the property states"},
 		Floor:       map[string]int{"quick": 40, "thorough": 40},
 		CaseBudget:  60,
